@@ -134,13 +134,16 @@ Definition ex_codata : fcprog :=
      mkfdef "main" [pI "n"] FI64
        (FLet "s" tyS (FCall "from" [vI "n"] (Some tyS))
           (FPrint true (callI "nth" [vS "s"; FLit 3])
-             (FPrint true (FDtor (vS "s") "hd" [] [] oI) (FLit 0) oI) oI) oI)].
+             (FPrint true (FDtor (vS "s") "hd" [] [] oI)
+                (* chained destructors and a call as scrutinee *)
+                (FPrint true (FDtor (FDtor (FDtor (vS "s") "tl" [] [] (Some tyS)) "tl" [] [] (Some tyS)) "hd" [] [] oI)
+                   (FPrint true (FDtor (FCall "from" [FLit 7] (Some tyS)) "hd" [] [] oI) (FLit 0) oI) oI) oI) oI) oI)].
 
 Example ex_codata_ok :
   prog_guard ex_codata = true /\ NoDup (map fdname (fcpdefs ex_codata)) /\
   compile_prog ex_codata = Ok (compiled_or_empty ex_codata) /\
-  run_fun 1000 ex_codata [10] = ([(true, 13); (true, 10)], OExit 0) /\
-  run_core 2000 (compiled_or_empty ex_codata) [10] = ([(true, 13); (true, 10)], OExit 0).
+  run_fun 1000 ex_codata [10] = ([(true, 13); (true, 10); (true, 12); (true, 7)], OExit 0) /\
+  run_core 2000 (compiled_or_empty ex_codata) [10] = ([(true, 13); (true, 10); (true, 12); (true, 7)], OExit 0).
 Proof.
   split; [vm_compute; reflexivity|]. split; [repeat constructor; simpl; intuition discriminate|].
   split; [vm_compute; reflexivity|]. split; vm_compute; reflexivity.
